@@ -119,8 +119,10 @@ func VerifC10Consistency() {
 		}
 		bad = hasS && hasR && s != r
 	case 9, 10: // paired settings: pids_limit, mem_limit, mem_reservation, cpus and their deploy.resources counterparts
-		m := vrtInt("own", 1, 3)
-		q := vrtInt("deploy", 1, 3)
+		// -1 is the legacy spelling of "unlimited" (0, "not set", compares with nothing and is left out)
+		m := vrtInt("own", -1, 2)
+		q := vrtInt("deploy", -1, 2)
+		vrtAssume(m != 0 && q != 0)
 		pair := vrtChoice("pair", 4)
 		attr := []string{"pids_limit", "mem_limit", "mem_reservation", "cpus"}[pair]
 		box := []string{"limits", "limits", "reservations", "limits"}[pair]
@@ -150,7 +152,7 @@ func VerifC10Consistency() {
 		case 5: // deploy without resources
 			a["deploy"] = map[string]any{"replicas": 1}
 		}
-		bad = shape <= 1 && m != q
+		bad = shape <= 1 && m != q && m != 0 && q != 0
 		// a second pair on the same service, itself agreeing or not: every pair is compared, whatever the others say
 		if second := vrtChoice("secondPair", 5); second > 0 {
 			sp := second - 1
